@@ -10,7 +10,9 @@ TRUSTED_BASE = [
 ]
 
 DEFAULT_RULE = ("histories of API calls generated from one PRNG seed (publish/delete/trim/compact/gc/sync/reopen with re-drawn "
-                "options, index removal, migrate), each followed by the property's observations; every line is one call executed on the "
+                "options, read-only sessions, index removal, migrate; every helper in its single, Multi and MultiOffsets form, Compact, Log.Size), "
+                "each followed by the property's observations (half of the time led by one query of a random kind, so that any call can be the "
+                "first to meet a missing index file or an unloaded segment); every line is one call executed on the "
                 "real code and on the Lean model; a history is distinct by the hash of its op list and non-trivial when it reached >= 2 "
                 "segments and had an effective delete/trim/compact or a reopen")
 
@@ -40,6 +42,11 @@ PROPS = {
                 # of the crash / power-loss images only what concerns offsets: NextOffset after recovery, and the
                 # append after it (an offset assigned twice shows there); the rest of those images is C05 / C06, and so
                 # is the window of the rebasing delete (known finding D6 of C05)
+                rule=DEFAULT_RULE + "; plus, rarely, batches whose largest body is 64 MiB + d (d = -29..+2, both formats: accepted as a whole iff d <= 0, "
+                     "a refused batch leaves nothing behind and the next publish continues where the log was); plus a small crash / power-loss profile "
+                     "(every file-system step of publish / delete / reopen snapshotted, torn appends, lost unsynced tails), of which this property judges "
+                     "what concerns offsets: NextOffset after Open(Recover) not backwards and above every live offset, and the append after recovery "
+                     "(an offset assigned twice shows there as a failed Check)",
                 viol_line_regex=r'^VIOL \d+ (?!.*\brebase=1\b)(?!Crash(Content|Views|RecoverAgain|Retry|Migrate|OpenFails)\b|Loss(BelowSync|NotPrefix|Views|RecoverAgain|OpenFails)\b)'),
     'C03': dict(quick=dict(profiles=[seq('C03', 192, 24)]), thorough=dict(profiles=[seq('C03', 1600, 40)])),
     'C04': dict(quick=dict(profiles=[seq('C04', 480, 30)]), thorough=dict(profiles=[seq('C04', 3200, 60)])),
